@@ -51,6 +51,7 @@ type callTokenData struct {
 	CallID    string // 32-char lowercase hex; binds this call to its cursors
 	SchemaIPC []byte // serialized output schema for dynamic methods; nil for static
 	StreamID  string // stable across init/continuations of one stream call
+	Method    string // the stream method whose /init minted this call
 }
 
 // cursorTokenData is the advancing half: re-minted every turn under
@@ -66,6 +67,7 @@ type cursorTokenData struct {
 type resolvedCall struct {
 	SchemaIPC []byte
 	StreamID  string
+	Method    string
 }
 
 // defaultCallStateCacheEntries bounds the per-process call cache.
@@ -440,13 +442,27 @@ func normalizeTokenKey(key []byte) []byte {
 	return sum[:]
 }
 
-// packCallToken seals the half of a stream's state that is fixed for the
-// life of the call. Minted once, by /init; never re-issued.
+// packCallToken seals a call token that names no method. No continuation
+// route accepts one (handleStreamExchange requires the minting method to match
+// the route); /init mints through packCallTokenFor.
 func (h *HttpServer) packCallToken(callID string, outputSchema *arrow.Schema, auth *AuthContext, streamID string) ([]byte, error) {
+	return h.packCallTokenFor("", callID, outputSchema, auth, streamID)
+}
+
+// packCallTokenFor seals the half of a stream's state that is fixed for the
+// life of the call. Minted once, by /init; never re-issued.
+//
+// method is the stream method being initialised. It travels inside the seal
+// because the cursor's state alone does not say which method it belongs to:
+// two methods may share a state type, and a producer's state means nothing
+// to an exchange method. The cursor is bound to this token by CallID, so
+// naming the method here binds every cursor of the call to it as well.
+func (h *HttpServer) packCallTokenFor(method, callID string, outputSchema *arrow.Schema, auth *AuthContext, streamID string) ([]byte, error) {
 	data := callTokenData{
 		CreatedAt: time.Now().Unix(),
 		CallID:    callID,
 		StreamID:  streamID,
+		Method:    method,
 	}
 	if outputSchema != nil {
 		data.SchemaIPC = serializeSchema(outputSchema)
@@ -457,7 +473,7 @@ func (h *HttpServer) packCallToken(callID string, outputSchema *arrow.Schema, au
 	}
 	// Warm the cache with the values we already hold, so this stream's first
 	// continuation does not have to open the token it was just handed.
-	h.callStates.put(callID, auth, data.CreatedAt, &resolvedCall{SchemaIPC: data.SchemaIPC, StreamID: streamID})
+	h.callStates.put(callID, auth, data.CreatedAt, &resolvedCall{SchemaIPC: data.SchemaIPC, StreamID: streamID, Method: method})
 	return token, nil
 }
 
@@ -521,7 +537,7 @@ func (h *HttpServer) resolveCall(cursor *cursorTokenData, callToken []byte, auth
 		return nil, &RpcError{Type: "RuntimeError", Message: "Malformed state token"}
 	}
 
-	got := &resolvedCall{SchemaIPC: data.SchemaIPC, StreamID: data.StreamID}
+	got := &resolvedCall{SchemaIPC: data.SchemaIPC, StreamID: data.StreamID, Method: data.Method}
 	h.callStates.put(cursor.CallID, auth, data.CreatedAt, got)
 	return got, nil
 }
